@@ -868,14 +868,24 @@ func (c *Compiler) compilePipe(node *ast.Pipe) error {
 	if err := c.compile(exprs[0]); err != nil {
 		return err
 	}
-	// Set the pipe active flag for the remainder of the pipe
-	c.current.pipeActive = true
 	defer func() {
 		c.current.pipeActive = false
 	}()
 	// Iterate over the remaining expressions. Each should eval to a function.
 	// TODO: may need to compile to a partial as well.
 	for i := 1; i < len(exprs); i++ {
+		// A stage that is a call becomes a partial (the flag is consumed by
+		// that call). Any other stage is an ordinary expression that yields
+		// the function: calls inside it - in an index, a condition, a list -
+		// are ordinary calls.
+		switch exprs[i].(type) {
+		case *ast.Call, *ast.ObjectCall:
+			c.current.pipeActive = true
+		case *ast.Pipe:
+			return fmt.Errorf("compile error: invalid nested pipe")
+		default:
+			c.current.pipeActive = false
+		}
 		// Compile the current expression, pushing a function as TOS
 		if err := c.compile(exprs[i]); err != nil {
 			return err
